@@ -200,6 +200,27 @@ func (c14) soakRound(ctx *core.Ctx, cs *core.Case) {
 					samples[g] = append(samples[g], sample{obj, i, res})
 				}
 			}
+			// phase C: link extraction - every goroutine resolves a run of references against ITS OWN
+			// page-length base string (the pattern a "last base" memo is made for), all at once
+			own := fmt.Sprintf("https://site-%d.example.com/section/%d/a/rather/long/article-name.html?page=%d", g, g, g)
+			prefix := fmt.Sprintf("https://site-%d.example.com/section/%d/a/rather/long/", g, g)
+			for k := 0; k < N/8; k++ {
+				ref := fmt.Sprintf("img/%d.png?v=%d", k, g)
+				var u *url.Url
+				var err error
+				switch k % 3 {
+				case 0:
+					u, err = url.ParseRef(own, ref)
+				case 1:
+					u, err = c14SoakParser.ParseRef(own, ref)
+				default:
+					u, err = canonicalizer.WhatWg.ParseRef(own, ref)
+				}
+				if res := c14result(u, err); !strings.HasPrefix(res, prefix+"img/") {
+					samples[g] = append(samples[g], sample{-2, g, fmt.Sprintf("ParseRef(%q, %q) = %s", own, ref, res)})
+					break
+				}
+			}
 		}(g)
 	}
 	close(gate)
@@ -210,6 +231,10 @@ func (c14) soakRound(ctx *core.Ctx, cs *core.Case) {
 	ctx.Add("concurrent_calls", int64(K*(N/K*4+N/4)))
 	for g := range samples {
 		for _, sm := range samples[g] {
+			if sm.obj == -2 {
+				ctx.Violate("a concurrent resolution was made against another goroutine's base", "resolved against its own base", sm.res, fmt.Sprintf("soak round, goroutine %d", sm.i))
+				return
+			}
 			if sm.obj < 0 {
 				ctx.Violate("a concurrent call panicked", "returns", sm.res, fmt.Sprintf("soak round, goroutine %d", sm.i))
 				return
